@@ -138,7 +138,7 @@ fn mirror_files(p: &Pos) -> Pos {
 }
 
 /// Themed construction (always White attacking first; symmetries applied afterwards)
-fn build_themed(theme: u8, bytes: &[u8], sym: u8) -> Option<Pos> {
+pub fn build_themed(theme: u8, bytes: &[u8], sym: u8) -> Option<Pos> {
     let by = |i: usize| -> usize { bytes.get(i).copied().unwrap_or(0) as usize };
     let mut b = [b'.'; 64];
     let put = |b: &mut [u8; 64], s: usize, c: u8| -> bool {
